@@ -112,7 +112,7 @@ func c09Applicable(p *gen.Program) ([]c09Transform, []gen.Boundary) {
 		if !(excluded["cont_before_linebreak_newline"] && b.Next != nil && b.Next.Kind == gen.KNewline && b.Prev != nil && b.Prev.LinebreakAfter) {
 			ts = append(ts, c09Transform{"continuation", b.Seq})
 		}
-		if b.BeforeNewline && b.Stream.Open != "`" {
+		if b.BeforeNewline && (b.Stream.Open != "`" || b.AtEnd) {
 			ts = append(ts, c09Transform{"comment", b.Seq})
 		}
 		if b.Linebreak {
